@@ -97,12 +97,18 @@ def wrapper_spec(unit, mods, sp, bp):
     return {"bundles": BUNDLES, "modules": list(mods) + [S], "top": "S"}
 
 
-def real_unit(unit, mods):
-    """The real instantiable for the unit (leaf call or built module)."""
+def real_unit(unit, mods, pre_elaborated=False):
+    """The real instantiable for the unit (leaf call or built module).  pre_elaborated: the unit module has been through an
+    elaboration of its own before the generator sees it (its bundle ports are flattened in place by then)."""
     if unit[0] == "leaf":
         return build.leaf_call(unit[1], 5)
     d = {"bundles": BUNDLES, "modules": list(mods), "top": mods[-1]["name"]}
-    return build.build(d).top
+    top = build.build(d).top
+    if pre_elaborated:
+        import hdl21 as h
+
+        h.elaborate(top)
+    return top
 
 
 def judge(rec, label, case, make_real, refdesign, must_accept=True, iname="units_"):
@@ -173,8 +179,11 @@ def run(ctx, rec):
                     iname = "unitq_" if any(p.startswith("units_") for p in sp) else "units_"  # (reference instance names must be free)
                     ref = chain_spec(unit, mods, sp, bp, a, b, n, iname) if n > 1 else wrapper_spec(unit, mods, sp, bp)
 
-                    def make(unit=unit, mods=mods, a=a, b=b, n=n, form=form):
-                        u = real_unit(unit, mods)
+                    pre = unit[0] == "mod" and (n + len(a)) % 2 == 0
+                    case["unit_elaborated_before"] = pre
+
+                    def make(unit=unit, mods=mods, a=a, b=b, n=n, form=form, pre=pre):
+                        u = real_unit(unit, mods, pre_elaborated=pre)
                         conns = (a, b) if form == "name" else (u.ports[a], u.ports[b])
                         return Series(unit=u, conns=conns, nser=n)
 
@@ -182,12 +191,15 @@ def run(ctx, rec):
         # Wrapper
         case = {"gen": "Wrapper", "unit": ulabel, "bundle_port": bool(bp)}
 
-        def makew(unit=unit, mods=mods):
-            w = Wrapper(real_unit(unit, mods))
-            w.name = f"{w.name}_{next(build._counter)}"
-            return w
+        for pre in ((False, True) if unit[0] == "mod" else (False,)):
+            case = {"gen": "Wrapper", "unit": ulabel, "bundle_port": bool(bp), "unit_elaborated_before": pre}
 
-        judge(rec, f"Wrapper({ulabel})", case, makew, wrapper_spec(unit, mods, sp, bp))
+            def makew(unit=unit, mods=mods, pre=pre):
+                w = Wrapper(real_unit(unit, mods, pre_elaborated=pre))
+                w.name = f"{w.name}_{next(build._counter)}"
+                return w
+
+            judge(rec, f"Wrapper({ulabel}{', elaborated before' if pre else ''})", case, makew, wrapper_spec(unit, mods, sp, bp))
     # MosStack over drain / source
     for ulabel in ("MOS", "M4", "M5"):
         sp = dict(refsem.LEAVES[ulabel]["ports"])
